@@ -296,6 +296,12 @@ def make_inputs(rnd, n, corpus):
             inp = k2cases.mk_input(src, st=True, hi=rnd.getrandbits(64), lo=rnd.getrandbits(64), **cfg)
             inputs.append(inp)
             kinds.append("edge corpus")
+    # left-over code of an abandoned parse branch inside a computed value whose text was cut: a default-sides dice with a detail span
+    # behind the text (a slice panic until the repair e540a42)
+    for hist, src in ((["&x = 0 ? 1, 2d ?"], "x"), (["&x = 0 || `{2d`"], "x"), (["&x = 0 ? 1, 2d ?"], "x + x"), (["&y = 1 ? 2, 3d ?"], "[y, y]")):
+        for cfg in ({}, {"oplimit": 1000}, {"mode": -1}):
+            inputs.append(k2cases.mk_input(src, hist=hist, hi=rnd.getrandbits(64), lo=rnd.getrandbits(64), **cfg))
+            kinds.append("edge corpus")
     # exploding pools are charged round by round against OpCountLimit (also in max mode, where they never stop by themselves)
     for src in ["5a10", "3a8", "2c8", "10a6m10", "1a2m100", "3c5m10", "20000a2", "x = 3a8 + 2c8; x", "func g() { 4a8 }; g() + 1c9"]:
         for cfg in ({"mode": 1, "oplimit": 5}, {"mode": 1, "oplimit": 50}, {"mode": 1, "oplimit": 1000}, {"oplimit": 3}, {"oplimit": 7},
